@@ -474,10 +474,12 @@ def load_database(dbpath, rootdir):
                     os.path.join(command.directory),
                 )
 
+        # Resolve symbolic links and ".." physically: collapsing "link/.." by
+        # name would point at a different file.
         if os.path.isabs(command.filename):
-            path = os.path.abspath(command.filename)
+            path = os.path.realpath(command.filename)
         else:
-            path = os.path.abspath(os.path.join(filedir, command.filename))
+            path = os.path.realpath(os.path.join(filedir, command.filename))
 
         # Skip files that don't exist.
         # (e.g., because they're generated by running make)
@@ -499,7 +501,7 @@ def load_database(dbpath, rootdir):
 
             # Include paths may be specified relative to root
             entry["include_paths"] = [
-                os.path.abspath(os.path.join(rootdir, f))
+                os.path.realpath(os.path.join(rootdir, f))
                 for f in entry["include_paths"]
             ]
 
